@@ -503,6 +503,48 @@ def job_ppar(j):
     return d
 
 
+def sched_scenario(ctx):
+    """clock tasks: the scheduler AppClock runs on (both of its modes): tasks that expire in one tick are awakened in
+    non-decreasing time, first scheduled first among equal times, each once; a task scheduled by an awakened task
+    for a time inside the same tick is awakened too (recursive mode) or left for the next tick (non-recursive)"""
+    from sc3.base import clock as clk
+    rec_mode = bool(ctx.choose('recursive', 2))
+    n = 2 + ctx.choose('n', 2)
+    ts = [ctx.real(f'p{i}', 0, 10) for i in range(n)]
+    rec = {'kind': 'sched', 'mode': 'nrt', 'sel': {'recursive': int(rec_mode), 'n': n - 2},
+           'names': [f'p{i}' for i in range(n)]}
+    data = {'key': f'c09:scheduler:{"recursive" if rec_mode else "non-recursive"}', 'replay': rec}
+    woke = []
+    with symx.shims():
+        sch = clk.Scheduler(clk.AppClock, drift=False, recursive=rec_mode)
+
+        def mk(i):
+            def f():
+                woke.append(i)
+            return f
+        for i in range(n):
+            sch.sched_abs(ts[i], mk(i))
+        sch.seconds = 20.0
+    if sorted(woke) != list(range(n)):
+        raise Violation(f'scheduler tick: tasks awakened {woke}, scheduled {list(range(n))} (each exactly once)', None, data)
+    for a, b in zip(woke, woke[1:]):
+        ta, tb = symx._coerce(symx._t(ts[a]), symx._t(ts[b]))
+        ctx.prove(z3.Or(ta < tb, z3.And(ta == tb, a < b)) if a < b else ta < tb,
+                  'tasks expiring in one tick are not awakened in (time, scheduling order) order', data)
+    ctx.note('scheduler')
+    return {'woke': woke}
+
+
+def job_sched(j):
+    st = explore(sched_scenario, max_paths=20000, timeout_ms=10000, stop_on_violation=True)
+    d = st.as_dict()
+    for v in d['violations']:
+        rec = v['data']['replay']
+        rec['values'] = {n: (v['model'] or {}).get(n) for n in rec['names']}
+        rec['what'] = v['what']
+    return d
+
+
 def ctx_model(ctx):
     try:
         return ctx.model()
@@ -545,7 +587,7 @@ def replay(rec):
         except Violation as v:
             return v.what
         return None
-    if rec['kind'] == 'ppar':
+    if rec['kind'] in ('ppar', 'sched'):
         class C2:
             obligations = discharged = 0
 
@@ -564,7 +606,7 @@ def replay(rec):
                 if not ok:
                     raise Violation(what, None, data)
         try:
-            ppar_scenario(C2())
+            (ppar_scenario if rec['kind'] == 'ppar' else sched_scenario)(C2())
         except Violation as v:
             return v.what
         return None
@@ -633,6 +675,9 @@ def main(tier, seed):
     for r in run_jobs('vf.props.c09', 'job_exit', [dict()], 'nrt'):
         chk.add('exit_actions', r)
     chk.require_notes('exit_actions', ['exit'] + ['exit:' + b for b in EXIT_BEHAV])
+    for r in run_jobs('vf.props.c09', 'job_sched', [dict()], 'nrt'):
+        chk.add('clock_scheduler', r)
+    chk.require_notes('clock_scheduler', ['scheduler'])
     for r in run_jobs('vf.props.c09', 'job_ppar', [dict()], 'nrt'):
         chk.add('parallel_streams', r)
     chk.require_notes('parallel_streams', ['ppar:' + m_ for m_ in PPAR_MODES])
